@@ -34,6 +34,9 @@ def check(ix, rep):
     rep.floor('syntax and specification modules scanned for shared state', _G12.run_global(ix, rep, prefix='rtamt.syntax') + _G12.run_global(ix, rep, prefix='rtamt.spec'), 40)
     no = ownrule.run(ix, rep)
     rep.floor('functions in the ownership analysis', no, 250)
+    # one node per occurrence: the parser's dispatch hands back the node built for the tree it was given
+    from sa.rules import parserrules as _Pfresh
+    rep.floor('parser dispatch methods checked for node sharing', _Pfresh.check_dispatch_transparent(ix, rep), 2)
     explanation = (
         'R-STORE: in the offline visit wrappers and in visitBinary/visitUnary/visitLeaf of the online update visitor every return is '
         'dominated by results[node] = <returned value> (per-function CFG + dominators); the memo-hit path records results[node] too; '
